@@ -124,10 +124,13 @@ def scheduler_part(ctx: Ctx) -> None:
     devs = schedlab.DEVS.replace("DevCseSubtree = FALSE", "DevCseSubtree = TRUE")
     mc = schedlab.model_check(ctx, progs[:1], dev=False, invariants=["Deterministic"], hang_report=False, devs=devs)
     ctx.add_tlc(expect_violation(mc, "Deterministic", "Scheduler.tla with DevCseSubtree on cur15"))
-    r = schedlab.suite(ctx, ["determ"], n_random_progs=0, n_sim=ctx.pick(40, 600), n_random_hist=ctx.pick(30, 500),
+    r = schedlab.suite(ctx, ["determ", "shallow"], n_random_progs=0, n_sim=ctx.pick(40, 600), n_random_hist=ctx.pick(30, 500),
                        corrupt=_corrupt, tag="c03", progs=progs,
                        need_handlers=("exec", "done", "resolve", "finish"))
     ult = sum(1 for m in r["meta"] if m["prog"]["ns"].startswith("cur15"))
+    nhits = sum(1 for t in r["traces"] for e in t["evs"] if e["ev"] == "ult_hit")
+    ctx.note("ultimate_hits_judged_by_the_contract", nhits)
+    ctx.require(nhits > 0, "no ultimate-reduction hit was observed in the scheduler part")
     ctx.note("scheduler_model_programs", len(progs))
     ctx.require(ult > 0, "the CSE-beneath-shallow program was not replayed")
 
